@@ -105,15 +105,19 @@ SetAttacher(a) ==
   /\ (a = "none" => att # "V")       \* the module-wide via-circuit attacher is never removed by the user
   /\ Tick /\ UNCHANGED <<cs, st, via>>
 
+\* once the attacher is installed a connection waits until its circuit is BUILT; only then is the
+\* underlying SOCKS connection started (so its stream cannot appear before the attacher knows it)
+AfterConf(c) == IF cs[c] = "BUILT" THEN "waitaddr" ELSE IF cs[c] = "BUILDING" THEN "waitbuilt" ELSE "failed"
+
 \* TorCircuitEndpoint.connect through circuit c.  The first such connection installs the module-wide
 \* via-circuit attacher (SETCONF __LeaveStreamsUnattached=1) and goes on once Tor has answered;
 \* late = Tor answers that SETCONF in a later step (ConfAck).  Connections made meanwhile share
 \* the attacher that is being installed and go straight on.
 ViaConnect(k, c, late) ==
-  /\ via[k].st = "idle" /\ cs[c] = "BUILT"
+  /\ via[k].st = "idle" /\ cs[c] \in {"BUILDING", "BUILT"}
   /\ att # "A"      \* the via-circuit API and a user attacher are not mixed (documented as an error)
   /\ late \in BOOLEAN /\ (late => att = "none")
-  /\ via' = [via EXCEPT ![k] = [st |-> IF late THEN "waitconf" ELSE "waitaddr", circ |-> c, port |-> 0]]
+  /\ via' = [via EXCEPT ![k] = [st |-> IF late THEN "waitconf" ELSE AfterConf(c), circ |-> c, port |-> 0]]
   /\ att' = "V"
   /\ IF att = "none"
      THEN wire' = << <<"SETCONF", 0, 1>> >> /\ hold' = late /\ UNCHANGED cq
@@ -123,7 +127,7 @@ ViaConnect(k, c, late) ==
 \* Tor answers the held SETCONF: queued commands follow, the first connection goes on
 ConfAck ==
   /\ hold /\ hold' = FALSE /\ wire' = cq /\ cq' = <<>>
-  /\ via' = [k \in Conns |-> IF via[k].st = "waitconf" THEN [via[k] EXCEPT !.st = "waitaddr"] ELSE via[k]]
+  /\ via' = [k \in Conns |-> IF via[k].st = "waitconf" THEN [via[k] EXCEPT !.st = AfterConf(via[k].circ)] ELSE via[k]]
   /\ Tick /\ UNCHANGED <<att, cs, st>>
 
 \* the SOCKS connection of k is made from local port p
@@ -140,7 +144,10 @@ CircStep(c, to) ==
      \/ cs[c] = "BUILDING" /\ to \in {"BUILT", "GONE"}
      \/ cs[c] = "BUILT" /\ to = "GONE" /\ \A k \in Conns : via[k].st \in {"waitconf", "waitaddr", "reg"} => via[k].circ # c
   /\ cs' = [cs EXCEPT ![c] = to]
-  /\ Out(<<>>) /\ Tick /\ UNCHANGED <<att, st, via>>
+  \* connections waiting for this circuit: BUILT starts their SOCKS connection, failure ends them
+  /\ via' = [k \in Conns |-> IF via[k].st = "waitbuilt" /\ via[k].circ = c
+                               THEN [via[k] EXCEPT !.st = IF to = "BUILT" THEN "waitaddr" ELSE "failed"] ELSE via[k]]
+  /\ Out(<<>>) /\ Tick /\ UNCHANGED <<att, st>>
 
 Next ==
   /\ steps < MaxSteps
@@ -169,6 +176,6 @@ ViaExact ==
 Answered == \A s \in Streams : (st[s].seen /\ st[s].asked = 1 /\ st[s].ans = "-" /\ st[s].kind # "exit") =>
                (Len(st[s].dec) + st[s].rep = 1 \/ (st[s].dec = <<>> /\ st[s].rep = 0))
 \* a via-circuit connection is never refused: every one made while the attacher is (being) installed shares it
-ViaNeverRefused == \A k \in Conns : via[k].st \in {"idle", "waitconf", "waitaddr", "reg", "done", "failed"}
+ViaNeverRefused == \A k \in Conns : via[k].st \in {"idle", "waitconf", "waitbuilt", "waitaddr", "reg", "done", "failed"}
 TypeOK == att \in {"none", "A", "V"} /\ (~hold => cq = <<>>) /\ (hold => att = "V")
 =============================================================================
